@@ -16,6 +16,7 @@ mod c14;
 mod c15;
 mod c16;
 mod chan;
+mod netio;
 mod c19;
 mod smoke;
 
@@ -39,6 +40,8 @@ pub fn build(prop: &str, tier: &str) -> Vec<Scenario> {
         "C14" => c14::build(quick),
         "C15" => c15::build(quick),
         "C16" => c16::build(quick),
+        "C17" => netio::build_c17(quick),
+        "C18" => netio::build_c18(quick),
         "C19" => c19::build(quick),
         _ => vec![],
     }
